@@ -433,6 +433,21 @@ def rewrite_for(src, toks, br, loop, spec_text, idx_name, log, kind_hint=None):
         for o, c in br2.items():
             inside.update(range(o + 1, c))
         depth_ok = [k for k in dd if k not in inside]
+    dde = [k for k, t in enumerate(et) if t.kind == "punct" and t.text == "..="]
+    if dde and re.match(r"^[A-Za-z_][A-Za-z0-9_]*$", pat):
+        br3 = rlex.match_brackets(et)
+        inside3 = set()
+        for o, c in br3.items():
+            inside3.update(range(o + 1, c))
+        top = [k for k in dde if k not in inside3]
+        if len(top) == 1:
+            # inclusive integer range `A..=B`: counted without computing B + 1
+            k = top[0]
+            A = expr[:et[k].start].strip(); B = expr[et[k].end:].strip()
+            bind = "" if pat == "_" else f"let {pat} = {n}; "
+            head = (f"let mut {n} = {A}; let {n}_end = {B}; let mut {n}_done: bool = {n} > {n}_end;\n"
+                    f" while !{n}_done\n{spec_text}\n {{\n {bind}if {n} == {n}_end {{ {n}_done = true; }} else {{ {n} += 1; }}\n")
+            return head, f"for {pat} in {expr} {{ => counting loop over the inclusive range `{A}..={B}`"
     if len(depth_ok) == 1 and re.match(r"^[A-Za-z_][A-Za-z0-9_]*$", pat):
         k = depth_ok[0]
         A = expr[:et[k].start].strip(); B = expr[et[k].end:].strip()
